@@ -111,6 +111,24 @@ Lemma put_item_eq h l c n e :
   get_cell h l = Some c -> put_item h l n e = set_items h l (set_nth n e (citems c)).
 Proof. intro Hc. unfold put_item, set_items. rewrite Hc. reflexivity. Qed.
 
+Lemma items_of_eq h l c : get_cell h l = Some c -> items_of h l = citems c.
+Proof. intro H. unfold items_of. rewrite H. reflexivity. Qed.
+
+Lemma cnt_of_cell h l c : get_cell h l = Some c -> cnt_of h l = cnt c.
+Proof. intro H. unfold cnt_of. rewrite H. reflexivity. Qed.
+
+Lemma make_mut_unique h l c : get_cell h l = Some c -> cnt c = 1 -> make_mut h l = (h, l).
+Proof. intros Hc C. unfold make_mut. rewrite Hc, C. reflexivity. Qed.
+
+Lemma cnt_of_incr_neq h l m : l <> m -> cnt_of (incr h l) m = cnt_of h m.
+Proof. intro N. unfold incr. destruct (get_cell h l); auto. apply cnt_of_set_neq; auto. Qed.
+
+Lemma cnt_of_clone_locs_notin ls : forall h m, ~ In m ls -> cnt_of (clone_locs h ls) m = cnt_of h m.
+Proof.
+  induction ls as [|a ls IH]; intros h m N; simpl; auto.
+  rewrite IH; [|intro; apply N; right; auto]. apply cnt_of_incr_neq. intro; subst; apply N; left; auto.
+Qed.
+
 Lemma repr_null_inv h v : repr h v VNull -> v = HNull.
 Proof. inversion 1; auto. Qed.
 
@@ -535,6 +553,113 @@ Proof.
     + occ_tac.
 Qed.
 
+(* ------------------------------------------------------------------ `every` over a slice: the same step, item by item *)
+Lemma upd_range_zero {A} (g : A -> A * bool) its i : upd_range g its i 0 = (its, true).
+Proof.
+  revert i. induction its as [|[k a] tl IH]; intro i; simpl; auto.
+  destruct i; auto. rewrite IH. reflexivity.
+Qed.
+
+Lemma upd_range_step {A} (g : A -> A * bool) its i c :
+  upd_range g its i (S c) =
+  match nth_item i its with
+  | None => (its, true)
+  | Some a => let (a', ok) := g a in
+              if ok then upd_range g (set_nth i a' its) (S i) c else (set_nth i a' its, false)
+  end.
+Proof.
+  revert i. induction its as [|[k a] tl IH]; intro i.
+  - destruct i; reflexivity.
+  - destruct i.
+    + simpl. unfold nth_item. simpl. destruct (g a) as [a' ok]. destruct ok; auto.
+    + simpl. rewrite IH. unfold nth_item. simpl. destruct (nth_error tl i) as [[k0 a0]|]; auto.
+      destruct (g a0) as [a' ok]. destruct ok; auto.
+Qed.
+
+Lemma m_range_ok every rest : set_spec every rest ->
+  forall new tnew cnt i h l d k its dv G h' ok,
+  Inv h ((l :: handles_opt d ++ handles_opt new) ++ G) ->
+  repr h (HRef l d) (VSeq k its dv) -> repr_opt h new tnew -> cnt_of h l = 1 ->
+  m_range (fun h e => m_set every rest new (clone_locs h (handles_opt new)) e) h l i cnt = (h', ok) ->
+  exists its', upd_range (v_set every rest tnew) its i cnt = (its', ok) /\
+    repr h' (HRef l d) (VSeq k its' dv) /\
+    Step h (l :: handles_opt d ++ handles_opt new) G h' (l :: handles_opt d ++ handles_opt new) /\
+    cnt_of h' l = 1 /\ repr_opt h' new tnew.
+Proof.
+  intros IHrest new tnew cnt. induction cnt as [|c IHc]; intros i h l d k its dv G h' ok I Hr Hn C1 E.
+  - simpl in E. inversion E; subst. exists its. rewrite upd_range_zero. split; auto. split; auto. split; auto.
+    apply Step_refl; auto.
+  - simpl in E. rewrite upd_range_step.
+    destruct (repr_ref_inv _ _ _ _ _ _ Hr) as [c0 [Hc0 [Kc0 [Hits Hd]]]]. subst k.
+    rewrite (items_of_eq _ _ _ Hc0) in E.
+    destruct (nth_item i (citems c0)) as [e|] eqn:Ne.
+    2: { inversion E; subst. rewrite (repr_items_nth_none _ _ _ _ Hits Ne). exists its. split; auto. split; auto.
+         split; auto. apply Step_refl; auto. }
+    assert (Cc0 : cnt c0 = 1) by (rewrite (cnt_of_cell _ _ _ Hc0) in C1; auto).
+    pose proof (make_mut_unique h l c0 Hc0 Cc0) as MM.
+    assert (I0 : Inv h ((l :: handles_opt d) ++ handles_opt new ++ G)) by (eapply Inv_equiv; [|exact I]; occ_tac).
+    destruct (descend_open h l d c0 (ckind c0) its dv i e (handles_opt new ++ G) h l I0 Hr Hc0 Ne MM)
+      as [te [Hte [_ [Hre [Hr1 [C1' [Sopen _]]]]]]].
+    set (h1 := put_item h l i HNull) in *.
+    assert (Hn1 : repr_opt h1 new tnew) by (eapply repr_opt_frame_step; eauto; apply incl_appl, incl_refl).
+    (* value.clone() for this element *)
+    assert (I1 : Inv h1 ((handles e ++ handles_opt new) ++ l :: handles_opt d ++ G)).
+    { eapply Inv_equiv; [|apply (st_inv _ _ _ _ _ Sopen)]. occ_tac. }
+    destruct (clone_locs_step (handles_opt new) h1 (handles e ++ handles_opt new) (l :: handles_opt d ++ G) I1) as [S2 [B2 L2]].
+    { intros x Hx. apply in_or_app. left. apply in_or_app. auto. }
+    set (h1c := clone_locs h1 (handles_opt new)) in *.
+    assert (U1 : occ l (handles_opt new) = 0).
+    { destruct (repr_ref_inv _ _ _ _ _ _ Hr1) as [c1 [Hc1 _]].
+      assert (Cc1 : cnt c1 = 1) by (rewrite (cnt_of_cell _ _ _ Hc1) in C1'; auto).
+      assert (Ix : Inv h1 ((l :: handles e ++ handles_opt new ++ handles_opt d) ++ G)).
+      { eapply Inv_equiv; [|exact I1]. occ_tac. }
+      destruct (owned_unique _ _ _ _ _ Ix Hc1 Cc1) as [U _]. apply occ_zero_app in U. destruct U as [_ U].
+      apply occ_zero_app in U. tauto. }
+    assert (C1c : cnt_of h1c l = 1).
+    { unfold h1c. rewrite cnt_of_clone_locs_notin; auto. apply occ_notIn; auto. }
+    fold h1 in E. fold h1c in E.
+    destruct (m_set every rest new h1c e) as [[h2 e'] ok1] eqn:ER.
+    assert (I1c : Inv h1c ((handles e ++ handles_opt new) ++ l :: handles_opt d ++ handles_opt new ++ G)).
+    { eapply Inv_equiv; [|apply S2]. occ_tac. }
+    assert (Hre_c : repr h1c e te) by (eapply repr_ext; eauto).
+    assert (Hn1c : repr_opt h1c new tnew) by (eapply repr_opt_ext; eauto).
+    destruct (IHrest new tnew h1c e te _ h2 e' ok1 I1c Hre_c Hn1c ER) as [te' [Ev [Hre' Srec]]].
+    rewrite Hte, Ev.
+    assert (Srec' : Step h1c (handles e ++ handles_opt new) (l :: handles_opt d ++ handles_opt new ++ G) h2 (handles e' ++ [])).
+    { rewrite app_nil_r. exact Srec. }
+    assert (Hr1c : repr h1c (HRef l d) (VSeq (ckind c0) (set_nth i VNull its) dv)) by (eapply repr_ext; eauto).
+    assert (Hn0 : nth_item i (set_nth i VNull its) = Some VNull) by (eapply nth_item_set_nth; eauto).
+    destruct (descend_close h1c _ l d (handles_opt new ++ G) h2 [] (ckind c0) (set_nth i VNull its) dv i e' te' Srec' I1c C1c Hr1c Hn0 Hre')
+      as [Hr3 [Sclose K3]].
+    rewrite set_nth_set_nth in Hr3. rewrite !app_nil_r in Sclose.
+    set (h3 := put_item h2 l i e') in *.
+    destruct (still_unique _ _ _ _ _ _ Srec' I1c C1c) as [C2 _].
+    assert (C3 : cnt_of h3 l = 1).
+    { unfold h3, put_item. destruct (get_cell h2 l) as [c2|] eqn:Hc2; auto.
+      rewrite (cnt_of_cell _ _ _ Hc2) in C2. erewrite cnt_of_set_eq; eauto. }
+    assert (Hn3 : repr_opt h3 new tnew).
+    { inversion Hn1c; subst; constructor. apply K3. { simpl. apply incl_appl, incl_refl. }
+      eapply (st_frame _ _ _ _ _ Srec); eauto. apply incl_tl. apply incl_appr, incl_appl, incl_refl. }
+    (* the step as a whole *)
+    assert (S13 : Step h (l :: handles_opt d ++ handles_opt new) G h3 (l :: handles_opt d ++ handles_opt new)).
+    { apply Step_frame in Sopen.
+      assert (S2' : Step h1 (handles e ++ handles_opt new) ((l :: handles_opt d) ++ G) h1c (handles_opt new ++ handles e ++ handles_opt new)) by exact S2.
+      apply Step_frame in S2'.
+      assert (Srec2 : Step h1c (handles e ++ handles_opt new) ((l :: handles_opt d ++ handles_opt new) ++ G) h2 (handles e')).
+      { simpl. rewrite <- app_assoc. exact Srec. }
+      apply Step_frame in Srec2.
+      apply Step_frame in Sclose.
+      eapply Step_trans; [eapply Step_equiv; [| |exact Sopen]|]. apply in_occ_equiv; occ_tac. intro; reflexivity.
+      eapply Step_trans; [eapply Step_equiv; [| |exact S2']|]. apply in_occ_equiv; occ_tac. intro; reflexivity.
+      eapply Step_trans; [eapply Step_equiv; [| |exact Srec2]|]. apply in_occ_equiv; occ_tac. intro; reflexivity.
+      eapply Step_equiv; [| |exact Sclose]. apply in_occ_equiv; occ_tac. occ_tac. }
+    destruct ok1.
+    + assert (I3 : Inv h3 ((l :: handles_opt d ++ handles_opt new) ++ G)) by apply S13.
+      destruct (IHc (S i) h3 l d (ckind c0) (set_nth i te' its) dv G h' ok I3 Hr3 Hn3 C3 E) as [its' [Eu [Hr' [S' [C' Hn']]]]].
+      exists its'. split; auto. split; auto. split; auto. eapply Step_trans; eauto.
+    + inversion E; subst; clear E. exists (set_nth i te' its). split; auto.
+Qed.
+
 (* ------------------------------------------------------------------ element writes into vectors, bytes, strings *)
 Lemma norm_index_lt len z n : norm_index len z = Some n -> n < len.
 Proof.
@@ -706,13 +831,31 @@ Proof.
 Qed.
 
 (* ------------------------------------------------------------------ set_index refines v_set *)
-Lemma m_set_ok every p : noslice p = true -> forall new tnew h cur t G h' cur' ok,
+Lemma set_spec_nil every : set_spec every [].
+Proof.
+  intros new tnew h cur t G h' cur' ok I Hr Hn E.
+  simpl in E. unfold m_set_here in E. inversion E; subst; clear E. simpl.
+  destruct (drop_val_keep h cur (handles_opt new) G I) as [S K].
+  eexists; split; [reflexivity|]. split.
+  - apply K. rewrite handles_new_or_null. apply incl_appl, incl_refl.
+    apply repr_new_or_null; auto.
+  - rewrite handles_new_or_null. exact S.
+Qed.
+
+Lemma upd_range_all {A} (w : A) its :
+  upd_range (fun _ => (w, true)) its 0 (length its) = (map (fun kv => (fst kv, w)) its, true).
+Proof.
+  induction its as [|[k a] tl IH]; simpl; auto. rewrite IH. reflexivity.
+Qed.
+
+Opaque slice_bounds.
+Lemma m_set_ok_all every p : forall new tnew h cur t G h' cur' ok,
   Inv h ((handles cur ++ handles_opt new) ++ G) -> repr h cur t -> repr_opt h new tnew ->
   m_set every p new h cur = (h', cur', ok) ->
   exists t', v_set every p tnew t = (t', ok) /\ repr h' cur' t' /\
              Step h (handles cur ++ handles_opt new) G h' (handles cur').
 Proof.
-  induction p as [|pe rest IH]; intros NS new tnew h cur t G h' cur' ok I Hr Hn E.
+  induction p as [|pe rest IH]; intros new tnew h cur t G h' cur' ok I Hr Hn E.
   - (* the slot itself *)
     simpl in E. unfold m_set_here in E. inversion E; subst; clear E. simpl.
     destruct (drop_val_keep h cur (handles_opt new) G I) as [S K].
@@ -720,9 +863,7 @@ Proof.
     + apply K. rewrite handles_new_or_null. apply incl_appl, incl_refl.
       apply repr_new_or_null; auto.
     + rewrite handles_new_or_null. exact S.
-  - simpl in NS. apply andb_prop in NS. destruct NS as [NS1 NS2].
-    specialize (IH NS2).
-    destruct cur as [| z | l d | sid fields].
+  - destruct cur as [| z | l d | sid fields].
     + (* null *) simpl in E. inversion E; subst; clear E. inversion Hr; subst. simpl.
       destruct (set_fail h HNull VNull new G I Hr). eauto.
     + simpl in E. inversion E; subst; clear E. inversion Hr; subst. simpl.
@@ -746,7 +887,37 @@ Proof.
       simpl in E. rewrite Hc in E.
       destruct (ckind c) eqn:K.
       * (* list *)
-        destruct pe as [z | bs | sid' f | lo hi]; [| | |simpl in NS1; discriminate].
+        destruct pe as [z | bs | sid' f | lo hi].
+        4: { (* every x[lo:hi]... = v *)
+          assert (VS : v_set every (PSl lo hi :: rest) tnew (VSeq KList its dv) =
+                       if every then
+                         let (a, b) := slice_bounds (length its) lo hi in
+                         let (items', ok) := upd_range (v_set every rest tnew) its a (b - a) in (VSeq KList items' dv, ok)
+                       else (VSeq KList its dv, false)) by reflexivity.
+          destruct every.
+          2: { apply FAIL; [symmetry; exact E | reflexivity]. }
+          rewrite VS. clear VS.
+          destruct (make_mut h l) as [h1 l'] eqn:MM. rewrite <- Hlen.
+          destruct (slice_bounds (length (citems c)) lo hi) as [a b].
+          destruct (m_range (fun h e => m_set true rest new (clone_locs h (handles_opt new)) e) h1 l' a (b - a)) as [h2 ok2] eqn:EM.
+          inversion E; subst; clear E.
+          rewrite handles_ref in I.
+          assert (I' : Inv h ((l :: handles_opt d ++ handles_opt new) ++ G)) by (eapply Inv_equiv; [|exact I]; occ_tac).
+          destruct (make_mut_facts h _ G l d _ h1 l' I' Hr MM) as [c0 [c1 [Hc0 [Hc1 [K1 [I1 [C1 [Inv1 [S1 [Hr1 B1]]]]]]]]]].
+          assert (Hn1 : repr_opt h1 new tnew) by (eapply repr_opt_ext; eauto).
+          assert (Cl' : cnt_of h1 l' = 1) by (rewrite (cnt_of_cell _ _ _ Hc1); auto).
+          destruct (m_range_ok true rest IH new tnew (b - a) a h1 l' d KList its dv G h2 ok Inv1 Hr1 Hn1 Cl' EM)
+            as [its' [Eu [Hr2 [S2 [C2 Hn2]]]]].
+          rewrite Eu.
+          assert (I2 : Inv h2 ((handles_opt new ++ l' :: handles_opt d) ++ G)).
+          { eapply Inv_equiv; [|apply S2]. occ_tac. }
+          destruct (drop_opt_keep h2 new (l' :: handles_opt d) G I2) as [S3 K3].
+          eexists; split; [reflexivity|]. split.
+          - apply K3; auto. rewrite handles_ref. apply incl_appl, incl_refl.
+          - rewrite !handles_ref.
+            eapply Step_trans; [eapply Step_equiv; [| |exact S1]|]. apply in_occ_equiv; occ_tac. intro; reflexivity.
+            eapply Step_trans; [exact S2|].
+            eapply Step_equiv; [| |exact S3]. apply in_occ_equiv; occ_tac. occ_tac. }
         -- destruct (make_mut h l) as [h1 l'] eqn:MM.
            destruct (norm_index (length (citems c)) z) as [n|] eqn:NI.
            2: { eapply FAILMM; eauto. simpl. rewrite <- Hlen, NI. reflexivity. }
@@ -844,27 +1015,59 @@ Proof.
               as [te [te' [Hte [Ev [Hr4 S]]]]].
             rewrite K in Hr4. rewrite Hte, Ev. eauto. }
         rewrite K in Hr.
-        destruct pe as [z | bs | sid' f | lo hi]; [| | |simpl in NS1; discriminate].
+        destruct pe as [z | bs | sid' f | lo hi].
         -- apply (DK (KI z)); auto.
         -- apply (DK (KB bs)); auto.
         -- apply FAIL; auto.
+        -- (* every d[:] = v *)
+           destruct lo; [apply FAIL; [symmetry; exact E | reflexivity]|].
+           destruct hi; [apply FAIL; [symmetry; exact E | reflexivity]|].
+           destruct rest as [|pe2 rest2]; [|apply FAIL; [symmetry; exact E | reflexivity]].
+           destruct (make_mut h l) as [h1 l'] eqn:MM.
+           destruct every.
+           2: { eapply FAILMM; [reflexivity | symmetry; exact E | reflexivity]. }
+           assert (VS : v_set true [PSl None None] tnew (VSeq KDict its dv) =
+                        (VSeq KDict (map (fun kv => (fst kv, match tnew with Some w => w | None => VNull end)) its) dv, true)) by reflexivity.
+           rewrite VS. clear VS.
+           destruct (m_range (fun h e => m_set_here new (clone_locs h (handles_opt new)) e) h1 l' 0 (length (citems c))) as [h2 ok2] eqn:EM.
+           inversion E; subst; clear E.
+           rewrite handles_ref in I.
+           assert (I'' : Inv h ((l :: handles_opt d ++ handles_opt new) ++ G)) by (eapply Inv_equiv; [|exact I]; occ_tac).
+           destruct (make_mut_facts h _ G l d _ h1 l' I'' Hr MM) as [c0 [c1 [Hc0 [Hc1 [K1 [I1 [C1 [Inv1 [S1 [Hr1 B1]]]]]]]]]].
+           assert (Hn1 : repr_opt h1 new tnew) by (eapply repr_opt_ext; eauto).
+           assert (Cl' : cnt_of h1 l' = 1) by (rewrite (cnt_of_cell _ _ _ Hc1); auto).
+           assert (EM' : m_range (fun h e => m_set true [] new (clone_locs h (handles_opt new)) e) h1 l' 0 (length (citems c)) = (h2, ok)) by exact EM.
+           destruct (m_range_ok true [] (set_spec_nil true) new tnew (length (citems c)) 0 h1 l' d KDict its dv G h2 ok Inv1 Hr1 Hn1 Cl' EM')
+             as [its' [Eu [Hr2 [S2 [C2 Hn2]]]]].
+           rewrite Hlen in Eu.
+           change (v_set true [] tnew) with (fun _ : val => (match tnew with Some w => w | None => VNull end, true)) in Eu.
+           rewrite upd_range_all in Eu. inversion Eu; subst.
+           assert (I2 : Inv h2 ((handles_opt new ++ l' :: handles_opt d) ++ G)).
+           { eapply Inv_equiv; [|apply S2]. occ_tac. }
+           destruct (drop_opt_keep h2 new (l' :: handles_opt d) G I2) as [S3 K3].
+           eexists; split; [reflexivity|]. split.
+           ++ apply K3; auto. rewrite handles_ref. apply incl_appl, incl_refl.
+           ++ rewrite !handles_ref.
+              eapply Step_trans; [eapply Step_equiv; [| |exact S1]|]. apply in_occ_equiv; occ_tac. intro; reflexivity.
+              eapply Step_trans; [exact S2|].
+              eapply Step_equiv; [| |exact S3]. apply in_occ_equiv; occ_tac. occ_tac.
       * (* string *)
         rewrite <- K in Hr.
-        destruct pe as [z | bs | sid' f | lo hi]; [| | |simpl in NS1; discriminate];
+        destruct pe as [z | bs | sid' f | lo hi]; [| | |rewrite K in Hr; apply FAIL; [symmetry; exact E | reflexivity]];
           (destruct rest as [|pe2 rest2]; [|rewrite K in Hr; apply FAIL; [symmetry; exact E | reflexivity]]);
           (match goal with |- context [v_set every [?PE] _ _] =>
              destruct (set_leaf_str_ok h l d c its dv PE new tnew G h' cur' ok I Hr Hn Hc E) as [t' [Ev [Hr' S]]]
            end; rewrite K in Ev; exists t'; split; [exact Ev | split; auto]).
       * (* vector *)
         rewrite <- K in Hr.
-        destruct pe as [z | bs | sid' f | lo hi]; [| | |simpl in NS1; discriminate];
+        destruct pe as [z | bs | sid' f | lo hi]; [| | |rewrite K in Hr; apply FAIL; [symmetry; exact E | reflexivity]];
           (destruct rest as [|pe2 rest2]; [|rewrite K in Hr; apply FAIL; [symmetry; exact E | reflexivity]]);
           (match goal with |- context [v_set every [?PE] _ _] =>
              destruct (set_leaf_num_ok (fun _ => true) h l d c its dv PE new tnew G h' cur' ok I Hr Hn Hc E) as [t' [Ev [Hr' S]]]
            end; rewrite K in Ev; exists t'; split; [exact Ev | split; auto]).
       * (* bytes *)
         rewrite <- K in Hr.
-        destruct pe as [z | bs | sid' f | lo hi]; [| | |simpl in NS1; discriminate];
+        destruct pe as [z | bs | sid' f | lo hi]; [| | |rewrite K in Hr; apply FAIL; [symmetry; exact E | reflexivity]];
           (destruct rest as [|pe2 rest2]; [|rewrite K in Hr; apply FAIL; [symmetry; exact E | reflexivity]]);
           (match goal with |- context [v_set every [?PE] _ _] =>
              destruct (set_leaf_num_ok is_byte h l d c its dv PE new tnew G h' cur' ok I Hr Hn Hc E) as [t' [Ev [Hr' S]]]
@@ -909,6 +1112,14 @@ Proof.
         -- intro x. pose proof (occ_list_set_field x fields f e' e Ef).
            specialize (OC x). revert H OC. occ_tac.
 Qed.
+Transparent slice_bounds.
+
+Lemma m_set_ok every p : noslice p = true -> forall new tnew h cur t G h' cur' ok,
+  Inv h ((handles cur ++ handles_opt new) ++ G) -> repr h cur t -> repr_opt h new tnew ->
+  m_set every p new h cur = (h', cur', ok) ->
+  exists t', v_set every p tnew t = (t', ok) /\ repr h' cur' t' /\
+             Step h (handles cur ++ handles_opt new) G h' (handles cur').
+Proof. intros _. apply m_set_ok_all. Qed.
 
 (* ------------------------------------------------------------------ reading: index / slice *)
 Lemma get_clone_drop h v e te R F :
@@ -1402,15 +1613,6 @@ Proof.
   intros I Hr MM. rewrite handles_ref in I.
   destruct (make_mut_facts h _ G l d _ h1 l' I Hr MM) as [c0 [c1 [Hc0 [Hc1 [K1 [I1 [C1 [Inv1 [S1 [Hr1 B1]]]]]]]]]].
   split; auto.
-Qed.
-
-Lemma cnt_of_incr_neq h l m : l <> m -> cnt_of (incr h l) m = cnt_of h m.
-Proof. intro N. unfold incr. destruct (get_cell h l); auto. apply cnt_of_set_neq; auto. Qed.
-
-Lemma cnt_of_clone_locs_notin ls : forall h m, ~ In m ls -> cnt_of (clone_locs h ls) m = cnt_of h m.
-Proof.
-  induction ls as [|a ls IH]; intros h m N; simpl; auto.
-  rewrite IH; [|intro; apply N; right; auto]. apply cnt_of_incr_neq. intro; subst; apply N; left; auto.
 Qed.
 
 (* a missing key of a dict with a default: insert a copy of the default, hand it to the recursion *)
@@ -1959,9 +2161,6 @@ Proof.
   match goal with H : get_cell _ _ = Some _ |- _ => rewrite H in Hk end. discriminate.
 Qed.
 
-Lemma items_of_eq h l c : get_cell h l = Some c -> items_of h l = citems c.
-Proof. intro H. unfold items_of. rewrite H. reflexivity. Qed.
-
 (* append to a list/vector/bytes payload: make_mut, push *)
 Lemma push_ok h l d c its dv b tb G h1 l' :
   Inv h ((handles (HRef l d) ++ handles b) ++ G) ->
@@ -2149,9 +2348,6 @@ Proof.
 Qed.
 Transparent alloc.
 
-Lemma cnt_of_cell h l c : get_cell h l = Some c -> cnt_of h l = cnt c.
-Proof. intro H. unfold cnt_of. rewrite H. reflexivity. Qed.
-
 (* a ++ b on two payloads of the same list-like kind: make_mut both, move b's items behind a's *)
 Lemma concat_ok h l1 d1 c1 its1 dv1 l2 d2 c2 its2 dv2 G h1 la h2 lb :
   Inv h ((handles (HRef l1 d1) ++ handles (HRef l2 d2)) ++ G) ->
@@ -2266,9 +2462,6 @@ Proof.
   { destruct (ckind c1); destruct (ckind c2); simpl in C; try discriminate; reflexivity. }
   unfold bop_post. rewrite H. split; auto.
 Qed.
-
-Lemma make_mut_unique h l c : get_cell h l = Some c -> cnt c = 1 -> make_mut h l = (h, l).
-Proof. intros Hc C. unfold make_mut. rewrite Hc, C. reflexivity. Qed.
 
 Lemma hbytes_repr h es ts : repr_items h es ts -> hbytes_of_items es = bytes_of_items ts.
 Proof.
@@ -2512,7 +2705,7 @@ Definition lfrag (m : lop) : bool :=
   | LSet p _ => noslice p
   | LOp p f _ => noslice p && bfrag f
   | LPop _ | LRemove _ _ | LConsume _ => true
-  | LEvery _ _ => false
+  | LEvery _ _ => true
   end.
 
 Lemma m_lop_ok m : lfrag m = true -> mod_spec (m_lop m) (lop_apply m).
@@ -2528,6 +2721,21 @@ Proof.
     { simpl. eapply Inv_equiv; [|apply S1]. occ_tac. }
     assert (Hr1 : repr h1 cur t) by (eapply repr_ext; eauto).
     destruct (m_set_ok false p FR (Some wv) (Some w) h1 cur t G h' cur' ok I1 Hr1 (RO_some _ _ _ Hw) ES) as [t' [Ev [Hr' S2]]].
+    simpl. rewrite Ev. simpl. split; auto.
+    assert (S12 : Step h (handles cur) G h' (handles cur')).
+    { eapply Step_trans; [exact S1|]. eapply Step_equiv; [| |exact S2]. apply in_occ_equiv; simpl; occ_tac. intro; reflexivity. }
+    destruct ok; simpl.
+    + split; [constructor|]. rewrite handles_null. simpl. exact S12.
+    + exact S12.
+  - (* every a[p] = w *)
+    intros h cur t G h' cur' r I Hr E. simpl in E.
+    destruct (alloc_val h w) as [h1 wv] eqn:EA.
+    destruct (m_set true p (Some wv) h1 cur) as [[h2 cur2] ok] eqn:ES. inversion E; subst; clear E.
+    destruct (alloc_val_ok w h (handles cur) G h1 wv I EA) as [Hw [S1 B1]].
+    assert (I1 : Inv h1 ((handles cur ++ handles_opt (Some wv)) ++ G)).
+    { simpl. eapply Inv_equiv; [|apply S1]. occ_tac. }
+    assert (Hr1 : repr h1 cur t) by (eapply repr_ext; eauto).
+    destruct (m_set_ok_all true p (Some wv) (Some w) h1 cur t G h' cur' ok I1 Hr1 (RO_some _ _ _ Hw) ES) as [t' [Ev [Hr' S2]]].
     simpl. rewrite Ev. simpl. split; auto.
     assert (S12 : Step h (handles cur) G h' (handles cur')).
     { eapply Step_trans; [exact S1|]. eapply Step_equiv; [| |exact S2]. apply in_occ_equiv; simpl; occ_tac. intro; reflexivity. }
@@ -2920,13 +3128,206 @@ Proof.
   split; auto.
 Qed.
 
+(* ------------------------------------------------------------------ swap: two reads, two assignments *)
+Lemma root_update_g h rs sg x cur h1 cur' t' Rin Rres G :
+  nth_error rs x = Some cur -> repr_list h rs sg ->
+  Step h Rin (handles_list (set_root rs x HNull) ++ G) h1 (Rres ++ handles cur') ->
+  repr h1 cur' t' ->
+  Inv h1 ((Rres ++ handles_list (set_root rs x cur')) ++ G) /\
+  repr_list h1 (set_root rs x cur') (set_var sg x t') /\
+  (forall u t, incl (handles u) G -> repr h u t -> repr h1 u t).
+Proof.
+  intros Ex Hrs S Hr'. set (others := handles_list (set_root rs x HNull)) in *. split; [|split].
+  - eapply Inv_equiv; [|apply (st_inv _ _ _ _ _ S)].
+    intro l. pose proof (roots_put x rs cur cur' Ex l). fold others in H. revert H. occ_tac.
+  - assert (Ho : repr h (HInst 0 (set_root rs x HNull)) (VInst 0 (set_field x VNull sg))).
+    { constructor. apply repr_list_set_field; auto. constructor. }
+    apply (st_frame _ _ _ _ _ S) in Ho; [|rewrite handles_inst; apply incl_appl, incl_refl].
+    inversion Ho; subst.
+    match goal with H : repr_list h1 _ _ |- _ => pose proof (repr_list_set_field _ _ _ x _ _ H Hr') as Hx end.
+    unfold set_root in Hx. rewrite hset_field_twice, set_field_twice in Hx. exact Hx.
+  - intros u t Iu Hu. apply (st_frame _ _ _ _ _ S); auto. apply incl_appr. auto.
+Qed.
+
+Lemma m_assign_to_ok_g h rs sg every x p w tw st' ok G :
+  noslice p = true ->
+  Inv h ((handles w ++ handles_list rs) ++ G) -> repr_list h rs sg -> repr h w tw ->
+  m_assign_to (mkst h rs) every x p w = (st', ok) ->
+  exists sg', assign_to sg every x p tw = (sg', ok) /\
+    Inv (mheap st') (handles_list (roots st') ++ G) /\ Sim st' sg' /\
+    (forall u t, incl (handles u) G -> repr h u t -> repr (mheap st') u t).
+Proof.
+  intros NS I Hrs Hw E. unfold m_assign_to in E. simpl in E. unfold assign_to.
+  destruct (nth_error rs x) as [cur|] eqn:Ex.
+  - destruct (repr_list_nth _ _ _ _ _ Hrs Ex) as [tcur [Htc Hcur]]. rewrite Htc.
+    destruct (m_set every p (Some w) h cur) as [[h1 cur'] ok1] eqn:ES. inversion E; subst; clear E.
+    set (others := handles_list (set_root rs x HNull)).
+    assert (I0 : Inv h ((handles cur ++ handles_opt (Some w)) ++ others ++ G)).
+    { eapply Inv_equiv; [|exact I]. intro l. pose proof (roots_split x rs cur Ex l). simpl. fold others in H. revert H. occ_tac. }
+    destruct (m_set_ok every p NS (Some w) (Some tw) h cur tcur _ h1 cur' ok I0 Hcur (RO_some _ _ _ Hw) ES)
+      as [t' [Ev [Hr' S]]].
+    rewrite Ev. eexists; split; [reflexivity|].
+    assert (S' : Step h (handles cur ++ handles_opt (Some w)) (handles_list (set_root rs x HNull) ++ G) h1 ([] ++ handles cur')) by exact S.
+    destruct (root_update_g h rs sg x cur h1 cur' t' _ [] G Ex Hrs S' Hr') as [I1 [Hrs1 K1]].
+    simpl. split; auto.
+  - inversion E; subst; clear E. rewrite (repr_list_nth_none _ _ _ _ Hrs Ex).
+    destruct (drop_val_keep h w (handles_list rs) G I) as [S K].
+    eexists; split; [reflexivity|]. simpl. split; [apply S|]. split.
+    + unfold Sim. simpl. apply repr_list_as_inst. apply K.
+      * rewrite handles_inst. apply incl_appl, incl_refl.
+      * apply repr_list_as_inst. auto.
+    + intros u t Iu Hu. apply K; auto. apply incl_appr. auto.
+Qed.
+
+Lemma m_assign_to_all_g h rs sg every x p w tw st' ok G :
+  Inv h ((handles w ++ handles_list rs) ++ G) -> repr_list h rs sg -> repr h w tw ->
+  m_assign_to (mkst h rs) every x p w = (st', ok) ->
+  exists sg', assign_to sg every x p tw = (sg', ok) /\
+    Inv (mheap st') (handles_list (roots st') ++ G) /\ Sim st' sg' /\
+    (forall u t, incl (handles u) G -> repr h u t -> repr (mheap st') u t).
+Proof.
+  intros I Hrs Hw E. unfold m_assign_to in E. simpl in E. unfold assign_to.
+  destruct (nth_error rs x) as [cur|] eqn:Ex.
+  - destruct (repr_list_nth _ _ _ _ _ Hrs Ex) as [tcur [Htc Hcur]]. rewrite Htc.
+    destruct (m_set every p (Some w) h cur) as [[h1 cur'] ok1] eqn:ES. inversion E; subst; clear E.
+    set (others := handles_list (set_root rs x HNull)).
+    assert (I0 : Inv h ((handles cur ++ handles_opt (Some w)) ++ others ++ G)).
+    { eapply Inv_equiv; [|exact I]. intro l. pose proof (roots_split x rs cur Ex l). simpl. fold others in H. revert H. occ_tac. }
+    destruct (m_set_ok_all every p (Some w) (Some tw) h cur tcur _ h1 cur' ok I0 Hcur (RO_some _ _ _ Hw) ES)
+      as [t' [Ev [Hr' S]]].
+    rewrite Ev. eexists; split; [reflexivity|].
+    assert (S' : Step h (handles cur ++ handles_opt (Some w)) (handles_list (set_root rs x HNull) ++ G) h1 ([] ++ handles cur')) by exact S.
+    destruct (root_update_g h rs sg x cur h1 cur' t' _ [] G Ex Hrs S' Hr') as [I1 [Hrs1 K1]].
+    simpl. split; auto.
+  - inversion E; subst; clear E. rewrite (repr_list_nth_none _ _ _ _ Hrs Ex).
+    destruct (drop_val_keep h w (handles_list rs) G I) as [S K].
+    eexists; split; [reflexivity|]. simpl. split; [apply S|]. split.
+    + unfold Sim. simpl. apply repr_list_as_inst. apply K.
+      * rewrite handles_inst. apply incl_appl, incl_refl.
+      * apply repr_list_as_inst. auto.
+    + intros u t Iu Hu. apply K; auto. apply incl_appr. auto.
+Qed.
+
+Lemma exec_every_ok x p e : efrag e = true ->
+  forall h rs sg st' ok,
+  Inv h (handles_list rs) -> repr_list h rs sg ->
+  m_exec_s (mkst h rs) (SEvery x p e) = (st', ok) ->
+  exists sg', exec_s sg (SEvery x p e) = (sg', ok) /\ StInv st' /\ Sim st' sg'.
+Proof.
+  intros FE h rs sg st' ok I Hs E. simpl in E. simpl.
+  assert (I0 : Inv h (handles_list rs ++ [])) by (rewrite app_nil_r; auto).
+  destruct (m_eval rs h e) as [h1 [w|]] eqn:EE.
+  - destruct (m_eval_ok e FE rs h [] sg h1 (Some w) I0 Hs EE) as [[tw [Ev [Hw S]]] K].
+    rewrite Ev.
+    assert (Hrs1 : repr_list h1 rs sg).
+    { apply repr_list_as_inst. apply K. rewrite handles_inst. apply incl_appl, incl_refl. apply repr_list_as_inst; auto. }
+    assert (I1 : Inv h1 ((handles w ++ handles_list rs) ++ [])) by apply S.
+    destruct (m_assign_to_all_g h1 rs sg true x p w tw st' ok [] I1 Hrs1 Hw E) as [sg' [Ev2 [I2 [Hs2 _]]]].
+    exists sg'. split; auto. split; auto. unfold StInv. rewrite app_nil_r in I2. auto.
+  - destruct (m_eval_ok e FE rs h [] sg h1 None I0 Hs EE) as [[Ev S] K].
+    rewrite Ev. inversion E; subst; clear E. eexists; split; [reflexivity|]. split.
+    + unfold StInv. simpl. pose proof (st_inv _ _ _ _ _ S) as I1. rewrite app_nil_r in I1. auto.
+    + unfold Sim. simpl. apply repr_list_as_inst. apply K.
+      rewrite handles_inst. apply incl_appl, incl_refl. apply repr_list_as_inst; auto.
+Qed.
+
+Lemma exec_swap_ok x p y q : noslice p = true -> noslice q = true ->
+  forall h rs sg st' ok,
+  Inv h (handles_list rs) -> repr_list h rs sg ->
+  m_exec_s (mkst h rs) (SSwap x p y q) = (st', ok) ->
+  exists sg', exec_s sg (SSwap x p y q) = (sg', ok) /\ StInv st' /\ Sim st' sg'.
+Proof.
+  intros NP NQ h rs sg st' ok I Hrs E. simpl in E.
+  assert (I0 : Inv h (handles_list rs ++ [])) by (rewrite app_nil_r; auto).
+  assert (KEEPST : forall hh, Step h (handles_list rs) [] hh (handles_list rs) ->
+                   (forall w t, incl (handles w) (handles_list rs ++ []) -> repr h w t -> repr hh w t) ->
+                   StInv (mkst hh rs) /\ Sim (mkst hh rs) sg).
+  { intros hh S K. split.
+    - unfold StInv. simpl. pose proof (st_inv _ _ _ _ _ S) as I1. rewrite app_nil_r in I1. auto.
+    - unfold Sim. simpl. apply repr_list_as_inst. apply K.
+      rewrite handles_inst. apply incl_appl, incl_refl. apply repr_list_as_inst; auto. }
+  assert (SPEC : exec_s sg (SSwap x p y q) =
+                 match (match nth_error sg x with Some v => v_get v p | None => None end),
+                       (match nth_error sg y with Some v => v_get v q | None => None end) with
+                 | Some a, Some b => let (st1, ok1) := assign_to sg false x p b in
+                                     if ok1 then assign_to st1 false y q a else (st1, false)
+                 | _, _ => (sg, false)
+                 end) by reflexivity.
+  rewrite SPEC. clear SPEC.
+  destruct (nth_error rs x) as [vx|] eqn:Ex.
+  2: { inversion E; subst. rewrite (repr_list_nth_none _ _ _ _ Hrs Ex). eexists; split; [reflexivity|]. split; auto. }
+  destruct (repr_list_nth _ _ _ _ _ Hrs Ex) as [tx [Htx Hvx]]. rewrite Htx.
+  assert (Ivx : incl (handles vx) (handles_list rs ++ handles_heap h)) by (apply incl_appl; eapply handles_list_nth; eauto).
+  destruct (nth_error rs y) as [vy|] eqn:Ey.
+  2: { rewrite (repr_list_nth_none _ _ _ _ Hrs Ey).
+       destruct (m_read h vx p) as [h1 [a|]] eqn:ER.
+       - destruct (m_read_ok h vx tx p (handles_list rs) [] h1 (Some a) I0 Ivx Hvx ER) as [[ta [Hg [Ha S1]]] K1].
+         rewrite Hg. inversion E; subst; clear E.
+         assert (I1 : Inv h1 ((handles a ++ handles_list rs) ++ [])) by apply S1.
+         destruct (drop_val_keep h1 a (handles_list rs) [] I1) as [S2 K2].
+         eexists; split; [reflexivity|]. apply KEEPST.
+         + eapply Step_trans; eauto.
+         + intros w t Iw Hw. apply K2; auto.
+       - destruct (m_read_ok h vx tx p (handles_list rs) [] h1 None I0 Ivx Hvx ER) as [[Hg S1] K1].
+         rewrite Hg. inversion E; subst; clear E. eexists; split; [reflexivity|]. apply KEEPST; auto. }
+  destruct (repr_list_nth _ _ _ _ _ Hrs Ey) as [ty [Hty Hvy]]. rewrite Hty.
+  destruct (m_read h vx p) as [h1 [a|]] eqn:ER.
+  2: { destruct (m_read_ok h vx tx p (handles_list rs) [] h1 None I0 Ivx Hvx ER) as [[Hg S1] K1].
+       rewrite Hg. inversion E; subst; clear E. eexists; split; [reflexivity|]. apply KEEPST; auto. }
+  destruct (m_read_ok h vx tx p (handles_list rs) [] h1 (Some a) I0 Ivx Hvx ER) as [[ta [Hg [Ha S1]]] K1].
+  rewrite Hg.
+  assert (Hrs1 : repr_list h1 rs sg).
+  { apply repr_list_as_inst. apply K1. rewrite handles_inst. apply incl_appl, incl_refl. apply repr_list_as_inst; auto. }
+  assert (I1 : Inv h1 (handles_list rs ++ handles a)).
+  { pose proof (st_inv _ _ _ _ _ S1) as I1. rewrite app_nil_r in I1. eapply Inv_equiv; [|exact I1]. occ_tac. }
+  assert (Hvy1 : repr h1 vy ty).
+  { destruct (repr_list_nth _ _ _ _ _ Hrs1 Ey) as [t2 [Ht2 Hv2]]. rewrite Hty in Ht2. inversion Ht2; subst. auto. }
+  assert (Ivy : incl (handles vy) (handles_list rs ++ handles_heap h1)) by (apply incl_appl; eapply handles_list_nth; eauto).
+  destruct (m_read h1 vy q) as [h2 [b|]] eqn:ER2.
+  2: { destruct (m_read_ok h1 vy ty q (handles_list rs) (handles a) h2 None I1 Ivy Hvy1 ER2) as [[Hg2 S2] K2].
+       rewrite Hg2. inversion E; subst; clear E.
+       assert (I2 : Inv h2 ((handles a ++ handles_list rs) ++ [])).
+       { rewrite app_nil_r. eapply Inv_equiv; [|apply S2]. occ_tac. }
+       destruct (drop_val_keep h2 a (handles_list rs) [] I2) as [S3 K3].
+       eexists; split; [reflexivity|]. split.
+       - unfold StInv. simpl. pose proof (st_inv _ _ _ _ _ S3) as I3. rewrite app_nil_r in I3. auto.
+       - unfold Sim. simpl. apply repr_list_as_inst. apply K3. rewrite handles_inst. apply incl_appl, incl_refl.
+         apply K2. rewrite handles_inst. apply incl_appl, incl_refl. apply repr_list_as_inst; auto. }
+  destruct (m_read_ok h1 vy ty q (handles_list rs) (handles a) h2 (Some b) I1 Ivy Hvy1 ER2) as [[tb [Hg2 [Hb S2]]] K2].
+  rewrite Hg2.
+  assert (Hrs2 : repr_list h2 rs sg).
+  { apply repr_list_as_inst. apply K2. rewrite handles_inst. apply incl_appl, incl_refl. apply repr_list_as_inst; auto. }
+  assert (Ha2 : repr h2 a ta) by (apply K2; auto; apply incl_appr, incl_refl).
+  assert (I2 : Inv h2 ((handles b ++ handles_list rs) ++ handles a)) by apply S2.
+  destruct (m_assign_to (mkst h2 rs) false x p b) as [st1 ok1] eqn:EA1.
+  destruct (m_assign_to_ok_g h2 rs sg false x p b tb st1 ok1 (handles a) NP I2 Hrs2 Hb EA1) as [sg1 [Ev1 [I3 [Hs1 K3]]]].
+  rewrite Ev1.
+  assert (Ha3 : repr (mheap st1) a ta) by (apply K3; auto; apply incl_refl).
+  destruct st1 as [h3 rs3]. simpl in *.
+  destruct ok1.
+  - assert (I3' : Inv h3 ((handles a ++ handles_list rs3) ++ [])).
+    { rewrite app_nil_r. eapply Inv_equiv; [|exact I3]. occ_tac. }
+    destruct (m_assign_to_ok_g h3 rs3 sg1 false y q a ta st' ok [] NQ I3' Hs1 Ha3 E) as [sg2 [Ev2 [I4 [Hs2 _]]]].
+    exists sg2. split; auto. split; auto. unfold StInv. rewrite app_nil_r in I4. auto.
+  - inversion E; subst; clear E.
+    assert (I3' : Inv h3 ((handles a ++ handles_list rs3) ++ [])).
+    { rewrite app_nil_r. eapply Inv_equiv; [|exact I3]. occ_tac. }
+    destruct (drop_val_keep h3 a (handles_list rs3) [] I3') as [S4 K4].
+    eexists; split; [reflexivity|]. split.
+    + unfold StInv. simpl. pose proof (st_inv _ _ _ _ _ S4) as I5. rewrite app_nil_r in I5. auto.
+    + unfold Sim in *. simpl in *. apply repr_list_as_inst. apply K4.
+      * rewrite handles_inst, app_nil_r. apply incl_refl.
+      * apply repr_list_as_inst. auto.
+Qed.
+
 (* ------------------------------------------------------------------ the proved fragment and the refinement theorem *)
 Definition sfrag (s : sstmt) : bool :=
   match s with
   | SAssign x p e => noslice p && efrag e
   | SOp x p f e => noslice p && bfrag f && efrag e
   | SMod dst x m => is_modlop m && match dst with Some (_, q) => noslice q | None => true end
-  | SEvery _ _ _ | SSwap _ _ _ _ => false
+  | SSwap x p y q => noslice p && noslice q
+  | SEvery x p e => efrag e
   end.
 
 Lemma m_exec_s_ok s : sfrag s = true -> forall st sg st' ok,
@@ -2952,12 +3353,17 @@ Proof.
       * unfold StInv. simpl. pose proof (st_inv _ _ _ _ _ S) as I1. rewrite app_nil_r in I1. auto.
       * unfold Sim. simpl. apply repr_list_as_inst. apply K.
         rewrite handles_inst. apply incl_appl, incl_refl. apply repr_list_as_inst; auto.
+  - (* every x[p] = e *)
+    eapply exec_every_ok; eauto.
   - (* x[p] f= e *)
     apply andb_prop in FR. destruct FR as [FR FE]. apply andb_prop in FR. destruct FR as [NS BF].
     eapply exec_op_ok; eauto.
   - (* [y[q] =] pop / remove / consume x[p] *)
     apply andb_prop in FR. destruct FR as [HM HD].
     eapply exec_mod_ok; eauto. destruct dst as [[y q]|]; auto.
+  - (* swap x[p], y[q] *)
+    apply andb_prop in FR. destruct FR as [NP NQ].
+    eapply exec_swap_ok; eauto.
 Qed.
 
 Definition frag (s : stmt) : bool := match s with Simple s => sfrag s | SFor _ _ _ => false end.
